@@ -157,8 +157,10 @@ def run(opts):
             chk.add_tlc(r)
             g = vf.tlc("Gen_Connections", "Gen_Connections.cfg", simulate=chk.pick(100, 2500), depth=18, seed=chk.seed % 100000,
                        workers=4, timeout=1200)
+            g2 = vf.tlc("Gen_Connections", "Gen_Connections_free.cfg", simulate=chk.pick(60, 1500), depth=18, seed=chk.seed % 100000 + 1,
+                        workers=4, timeout=1200)
             seen = set()
-            for x in g.gen:
+            for x in g.gen + g2.gen:
                 key = json.dumps(x["steps"])
                 if key in seen:
                     continue
